@@ -52,8 +52,11 @@ def run(ctx):
                 ba, bb = K.key(kids(a)[0]), K.key(kids(b)[0])
                 if ba != bb:
                     cmp_fields.add(a.get('name'))
-    read1 = set(_fields_read(ul, fl, 'TransitionType'))
-    read2 = set(_fields_read(ul2, fl2, 'TransitionType'))
+    read1, read2 = set(), set()
+    for (uu_, ff_) in ctx.scope(fl):          # LocalTime and the file-local helpers it may be split into
+        read1 |= set(_fields_read(uu_, ff_, 'TransitionType'))
+    for (uu_, ff_) in ctx.scope(fl2):
+        read2 |= set(_fields_read(uu_, ff_, 'TransitionType'))
     observable = read1 | read2
     if not observable or not cmp_fields:
         raise AnalysisBroken('C11-equiv: could not extract field sets (%s / %s)' % (observable, cmp_fields))
